@@ -149,3 +149,49 @@ func Allocated() uint64 {
 
 // Symbolic reports whether the harness runs under the symbolic engine.
 func Symbolic() bool { return false }
+
+// And / Or / Implies / Not combine conditions without branching (the engine
+// builds one term instead of forking on each operand).
+func And(cs ...bool) bool {
+	for _, c := range cs {
+		if !c {
+			return false
+		}
+	}
+	return true
+}
+
+func Or(cs ...bool) bool {
+	for _, c := range cs {
+		if c {
+			return true
+		}
+	}
+	return false
+}
+
+func Implies(a, b bool) bool { return !a || b }
+
+// BytesEq compares two byte slices without branching per byte.
+func BytesEq(a, b []byte) bool {
+	if len(a) != len(b) {
+		return false
+	}
+	for i := range a {
+		if a[i] != b[i] {
+			return false
+		}
+	}
+	return true
+}
+
+// Thorough reports whether the thorough tier is running (bigger bounds).
+func Thorough() bool { return os.Getenv("VERIF_TIER") == "thorough" }
+
+// IteU64 selects without branching.
+func IteU64(c bool, a, b uint64) uint64 {
+	if c {
+		return a
+	}
+	return b
+}
